@@ -19,41 +19,794 @@ structure WidthOK (w : Nat → Nat) (len : Nat) : Prop where
   pos_lt : ∀ p, p < len → 1 ≤ w p
   zero_ge : ∀ p, len ≤ p → w p = 0
 
+/-! ### Basic facts -/
+
+theorem find_none_of_gt {find : Nat → Option α} {sp : α → Nat × Nat} {len : Nat} (ok : FindOK find sp len)
+    {pos : Nat} (hp : pos > len) : find pos = none := by
+  cases hf : find pos with
+  | none => rfl
+  | some m =>
+    have := ok.bounds hf
+    omega
+
+theorem nextOf_gt (w : Nat → Nat) (p : Nat) : p < nextOf w p := by
+  unfold nextOf
+  split <;> omega
+
+/-- stdlib's step after an empty match at `pos ≤ len` is `nextOf w pos`. -/
+theorem stdNext_eq {w : Nat → Nat} {len : Nat} (wk : WidthOK w len) {pos : Nat} (hp : pos ≤ len) :
+    (if w pos > 0 then pos + w pos else len + 1) = nextOf w pos := by
+  unfold nextOf
+  by_cases h : w pos = 0
+  · have : ¬ (pos < len) := fun hl => by have := wk.pos_lt pos hl; omega
+    rw [if_neg (by omega), if_pos h]; omega
+  · rw [if_pos (by omega), if_neg h]
+
+/-! ### One-step unfoldings of `stdAll` -/
+
+theorem stdAll_stop (find : Nat → Option α) (sp : α → Nat × Nat) (w : Nat → Nat) (len fuel pos i : Nat)
+    (prev : Option Nat) (n : Nat) (hp : pos > len) : stdAll find sp w len fuel pos i prev n = [] := by
+  cases fuel with
+  | zero => rfl
+  | succ fuel =>
+    rw [stdAll, if_pos (by omega)]
+
+theorem stdAll_lim (find : Nat → Option α) (sp : α → Nat × Nat) (w : Nat → Nat) (len fuel pos i : Nat)
+    (prev : Option Nat) (n : Nat) (hl : ¬ i < n) : stdAll find sp w len fuel pos i prev n = [] := by
+  cases fuel with
+  | zero => rfl
+  | succ fuel =>
+    rw [stdAll, if_pos (fun h => hl h.1)]
+
+theorem stdAll_none {find : Nat → Option α} (sp : α → Nat × Nat) (w : Nat → Nat) (len fuel pos i : Nat)
+    (prev : Option Nat) (n : Nat) (hf : find pos = none) : stdAll find sp w len fuel pos i prev n = [] := by
+  cases fuel with
+  | zero => rfl
+  | succ fuel =>
+    rw [stdAll]
+    split
+    · rfl
+    · rw [hf]
+
+theorem stdAll_rej {find : Nat → Option α} {sp : α → Nat × Nat} {w : Nat → Nat} {len : Nat} (wk : WidthOK w len)
+    {fuel pos i : Nat} {prev : Option Nat} {n : Nat} {m : α}
+    (hl : i < n) (hp : pos ≤ len) (hf : find pos = some m) (he : (sp m).2 = pos) (hr : some (sp m).1 = prev) :
+    stdAll find sp w len (fuel+1) pos i prev n = stdAll find sp w len fuel (nextOf w pos) i (some pos) n := by
+  rw [stdAll, if_neg (by omega), hf]
+  simp only []
+  rw [if_pos he, if_pos hr, stdNext_eq wk hp, he]
+
+theorem stdAll_accE {find : Nat → Option α} {sp : α → Nat × Nat} {w : Nat → Nat} {len : Nat} (wk : WidthOK w len)
+    {fuel pos i : Nat} {prev : Option Nat} {n : Nat} {m : α}
+    (hl : i < n) (hp : pos ≤ len) (hf : find pos = some m) (he : (sp m).2 = pos) (hr : ¬ some (sp m).1 = prev) :
+    stdAll find sp w len (fuel+1) pos i prev n = m :: stdAll find sp w len fuel (nextOf w pos) (i+1) (some pos) n := by
+  rw [stdAll, if_neg (by omega), hf]
+  simp only []
+  rw [if_pos he, if_neg hr, stdNext_eq wk hp, he]
+
+theorem stdAll_accN {find : Nat → Option α} {sp : α → Nat × Nat} {w : Nat → Nat} {len : Nat}
+    {fuel pos i : Nat} {prev : Option Nat} {n : Nat} {m : α}
+    (hl : i < n) (hp : pos ≤ len) (hf : find pos = some m) (he : ¬ (sp m).2 = pos) :
+    stdAll find sp w len (fuel+1) pos i prev n
+      = m :: stdAll find sp w len fuel (sp m).2 (i+1) (some (sp m).2) n := by
+  rw [stdAll, if_neg (by omega), hf]
+  simp only []
+  rw [if_neg he]
+
+/-! ### One-step unfoldings of `loopA` -/
+
+theorem loopA_lim (find : Nat → Option α) (sp : α → Nat × Nat) (next : Nat → Nat) (len fuel pos : Nat)
+    (last : Option Nat) (cnt : Nat) (n : Option Nat) (hl : limitHit n cnt = true) :
+    loopA find sp next len fuel pos last cnt n = [] := by
+  cases fuel with
+  | zero => rfl
+  | succ fuel => rw [loopA, if_pos hl]
+
+theorem loopA_none {find : Nat → Option α} (sp : α → Nat × Nat) (next : Nat → Nat) (len fuel pos : Nat)
+    (last : Option Nat) (cnt : Nat) (n : Option Nat) (hf : find pos = none) :
+    loopA find sp next len fuel pos last cnt n = [] := by
+  cases fuel with
+  | zero => rfl
+  | succ fuel =>
+    rw [loopA]
+    split
+    · rfl
+    · rw [hf]
+
+theorem loopA_rej {find : Nat → Option α} {sp : α → Nat × Nat} {next : Nat → Nat} {len fuel pos : Nat}
+    {last : Option Nat} {cnt : Nat} {n : Option Nat} {m : α}
+    (hl : ¬ limitHit n cnt = true) (hf : find pos = some m) (hr : (sp m).1 = (sp m).2 ∧ some (sp m).1 = last) :
+    loopA find sp next len (fuel+1) pos last cnt n
+      = if next pos > len then [] else loopA find sp next len fuel (next pos) last cnt n := by
+  rw [loopA, if_neg hl, hf]
+  simp only []
+  rw [if_pos hr]
+
+theorem loopA_acc {find : Nat → Option α} {sp : α → Nat × Nat} {next : Nat → Nat} {len fuel pos : Nat}
+    {last : Option Nat} {cnt : Nat} {n : Option Nat} {m : α}
+    (hl : ¬ limitHit n cnt = true) (hf : find pos = some m) (hr : ¬ ((sp m).1 = (sp m).2 ∧ some (sp m).1 = last)) :
+    loopA find sp next len (fuel+1) pos last cnt n
+      = if advance next pos (sp m).1 (sp m).2 > len then [m]
+        else m :: loopA find sp next len fuel (advance next pos (sp m).1 (sp m).2)
+                    (if (sp m).1 ≠ (sp m).2 then some (sp m).2 else last) (cnt+1) n := by
+  rw [loopA, if_neg hl, hf]
+  simp only []
+  rw [if_neg hr]
+
+/-- what the two loops must agree on about their "previous end" registers -/
+structure Rel (pos : Nat) (prev last : Option Nat) : Prop where
+  iff_here : prev = some pos ↔ last = some pos
+  last_le : ∀ x, last = some x → x ≤ pos
+  prev_le : ∀ x, prev = some x → x ≤ pos
+
+theorem Rel.init : Rel 0 none none :=
+  { iff_here := Iff.intro (fun h => nomatch h) (fun h => nomatch h)
+    last_le := fun _ h => nomatch h
+    prev_le := fun _ h => nomatch h }
+
+/-- moving strictly forward with stdlib's register anywhere behind and the model's unchanged -/
+theorem Rel.step {pos p' q : Nat} {prev last : Option Nat} (rel : Rel pos prev last) (hq : q < p') (hp : pos < p') :
+    Rel p' (some q) last :=
+  { iff_here := Iff.intro (fun h => absurd (Option.some.inj h) (by omega))
+      (fun h => by have := rel.last_le _ h; omega)
+    last_le := fun x hx => by have := rel.last_le x hx; omega
+    prev_le := fun x hx => by cases hx; omega }
+
+theorem Rel.same (e : Nat) : Rel e (some e) (some e) :=
+  { iff_here := Iff.intro (fun _ => rfl) (fun _ => rfl)
+    last_le := fun x hx => by cases hx; omega
+    prev_le := fun x hx => by cases hx; omega }
+
+/-- Main simulation: stdlib's `allMatches` loop and `findAllIndicesLoop` deliver the same list.
+`hlim` says the two limit tests agree on every count that is reachable from here. -/
+theorem loopA_std (find : Nat → Option α) (sp : α → Nat × Nat) (w : Nat → Nat) (len : Nat)
+    (ok : FindOK find sp len) (wk : WidthOK w len) (N : Nat) (n : Option Nat) :
+    ∀ (k pos : Nat) (prev last : Option Nat) (i cnt fs fc : Nat),
+      len + 2 - pos ≤ k → Rel pos prev last →
+      (∀ j, pos + j ≤ len → (limitHit n (cnt + j) = true ↔ ¬ (i + j < N))) →
+      2 * (len + 2 - pos) ≤ fs → len + 2 - pos ≤ fc →
+      stdAll find sp w len fs pos i prev N = loopA find sp (nextOf w) len fc pos last cnt n := by
+  intro k
+  induction k with
+  | zero =>
+    intro pos prev last i cnt fs fc hk _ _ _ _
+    have hp : pos > len := by omega
+    rw [stdAll_stop _ _ _ _ _ _ _ _ _ hp, loopA_none _ _ _ _ _ _ _ _ (find_none_of_gt ok hp)]
+  | succ k ih =>
+    intro pos prev last i cnt fs fc hk rel hlim hfs hfc
+    by_cases hp : pos > len
+    · rw [stdAll_stop _ _ _ _ _ _ _ _ _ hp, loopA_none _ _ _ _ _ _ _ _ (find_none_of_gt ok hp)]
+    · have hple : pos ≤ len := by omega
+      have hlim0 := hlim 0 (by omega)
+      simp only [Nat.add_zero] at hlim0
+      by_cases hl : i < N
+      · have hlc : ¬ limitHit n cnt = true := fun h => (hlim0.mp h) hl
+        cases hf : find pos with
+        | none => rw [stdAll_none _ _ _ _ _ _ _ _ hf, loopA_none _ _ _ _ _ _ _ _ hf]
+        | some m =>
+          obtain ⟨h1, h2, h3⟩ := ok.bounds hf
+          obtain ⟨fs, rfl⟩ : ∃ fs', fs = fs' + 1 := ⟨fs - 1, by omega⟩
+          obtain ⟨fc, rfl⟩ : ∃ fc', fc = fc' + 1 := ⟨fc - 1, by omega⟩
+          have hshift : ∀ p', pos < p' → ∀ j, p' + j ≤ len →
+              (limitHit n (cnt + 1 + j) = true ↔ ¬ (i + 1 + j < N)) := by
+            intro p' hp' j hj
+            have := hlim (j + 1) (by omega)
+            rwa [show cnt + (j + 1) = cnt + 1 + j by omega, show i + (j + 1) = i + 1 + j by omega] at this
+          by_cases hse : (sp m).1 = (sp m).2
+          · by_cases hsp : (sp m).2 = pos
+            · -- empty match at pos
+              have hgt := nextOf_gt w pos
+              by_cases hprev : some (sp m).1 = prev
+              · have hlast : some (sp m).1 = last := by
+                  rw [hse, hsp] at hprev ⊢
+                  exact (rel.iff_here.mp hprev.symm).symm
+                rw [stdAll_rej wk hl hple hf hsp hprev, loopA_rej hlc hf ⟨hse, hlast⟩]
+                by_cases hlt : nextOf w pos > len
+                · rw [if_pos hlt, stdAll_stop _ _ _ _ _ _ _ _ _ hlt]
+                · rw [if_neg hlt]
+                  exact ih _ _ _ _ _ _ _ (by omega) (rel.step hgt hgt)
+                    (fun j hj => hlim j (by omega)) (by omega) (by omega)
+              · have hlast : ¬ ((sp m).1 = (sp m).2 ∧ some (sp m).1 = last) := by
+                  intro h
+                  apply hprev
+                  have h2 := h.2
+                  rw [hse, hsp] at h2 ⊢
+                  exact (rel.iff_here.mpr h2.symm).symm
+                rw [stdAll_accE wk hl hple hf hsp hprev, loopA_acc hlc hf hlast]
+                have hadv : advance (nextOf w) pos (sp m).1 (sp m).2 = nextOf w pos := by
+                  unfold advance; rw [if_pos hse, hsp]
+                rw [hadv, if_neg (fun h : (sp m).1 ≠ (sp m).2 => h hse)]
+                by_cases hlt : nextOf w pos > len
+                · rw [if_pos hlt, stdAll_stop _ _ _ _ _ _ _ _ _ hlt]
+                · rw [if_neg hlt]
+                  congr 1
+                  exact ih _ _ _ _ _ _ _ (by omega) (rel.step hgt hgt)
+                    (hshift _ hgt) (by omega) (by omega)
+            · -- empty match strictly ahead of pos: stdlib visits it twice
+              have hgt := nextOf_gt w (sp m).2
+              have hlast : ¬ ((sp m).1 = (sp m).2 ∧ some (sp m).1 = last) := by
+                intro h; have := rel.last_le _ h.2.symm; omega
+              rw [stdAll_accN hl hple hf hsp, loopA_acc hlc hf hlast]
+              have hadv : advance (nextOf w) pos (sp m).1 (sp m).2 = nextOf w (sp m).2 := by
+                unfold advance; rw [if_pos hse]
+              rw [hadv, if_neg (fun h : (sp m).1 ≠ (sp m).2 => h hse)]
+              obtain ⟨fs, rfl⟩ : ∃ fs', fs = fs' + 1 := ⟨fs - 1, by omega⟩
+              have hf2 : find (sp m).2 = some m := ok.stable hf (by omega) (by omega)
+              by_cases hl1 : i + 1 < N
+              · rw [stdAll_rej wk hl1 h3 hf2 rfl (by rw [hse])]
+                by_cases hlt : nextOf w (sp m).2 > len
+                · rw [if_pos hlt, stdAll_stop _ _ _ _ _ _ _ _ _ hlt]
+                · rw [if_neg hlt]
+                  congr 1
+                  exact ih _ _ _ _ _ _ _ (by omega) (rel.step hgt (by omega))
+                    (hshift _ (by omega)) (by omega) (by omega)
+              · rw [stdAll_lim _ _ _ _ _ _ _ _ _ hl1]
+                by_cases hlt : nextOf w (sp m).2 > len
+                · rw [if_pos hlt]
+                · rw [if_neg hlt]
+                  have := (hlim 1 (by omega)).mpr hl1
+                  rw [loopA_lim _ _ _ _ _ _ _ _ _ this]
+          · -- non-empty match
+            have hep : ¬ (sp m).2 = pos := by omega
+            have hlast : ¬ ((sp m).1 = (sp m).2 ∧ some (sp m).1 = last) := fun h => hse h.1
+            rw [stdAll_accN hl hple hf hep, loopA_acc hlc hf hlast]
+            have hadv : advance (nextOf w) pos (sp m).1 (sp m).2 = (sp m).2 := by
+              unfold advance; rw [if_neg hse, if_pos (by omega)]
+            rw [hadv, if_pos hse, if_neg (by omega)]
+            congr 1
+            exact ih _ _ _ _ _ _ _ (by omega) (Rel.same _)
+              (hshift _ (by omega)) (by omega) (by omega)
+      · have hlc : limitHit n cnt = true := hlim0.mpr hl
+        rw [stdAll_lim _ _ _ _ _ _ _ _ _ hl, loopA_lim _ _ _ _ _ _ _ _ _ hlc]
+
 theorem loopA_eq_std (find : Nat → Option α) (sp : α → Nat × Nat) (w : Nat → Nat) (len : Nat)
     (ok : FindOK find sp len) (wk : WidthOK w len) (n : Int) (hn : n ≠ 0) :
     findAllA false find sp (nextOf w) len (if n ≤ 0 then none else some n.toNat) = stdFindAll find sp w len n := by
-  sorry
+  unfold findAllA stdFindAll
+  rw [if_neg (by decide)]
+  symm
+  by_cases hneg : n < 0
+  · have hle : n ≤ 0 := by omega
+    simp only []
+    rw [if_pos hneg, if_pos hle]
+    apply loopA_std find sp w len ok wk (len + 1) none (len + 2) 0 none none 0 0 _ _ (by omega) Rel.init
+    · intro j hj
+      simp only [limitHit]
+      constructor
+      · intro h; exact absurd h (by decide)
+      · intro h; omega
+    · omega
+    · omega
+  · have hle : ¬ n ≤ 0 := by omega
+    simp only []
+    rw [if_neg hneg, if_neg hle]
+    apply loopA_std find sp w len ok wk n.toNat (some n.toNat) (len + 2) 0 none none 0 0 _ _ (by omega) Rel.init
+    · intro j hj
+      simp only [limitHit, decide_eq_true_eq]
+      omega
+    · omega
+    · omega
 
 theorem anchored_eq_std (find : Nat → Option α) (sp : α → Nat × Nat) (w : Nat → Nat) (len : Nat)
     (ok : FindOK find sp len) (wk : WidthOK w len) (anch : ∀ p, 0 < p → find p = none) (n : Int) (hn : n ≠ 0) :
     findAllA true find sp (nextOf w) len (if n ≤ 0 then none else some n.toNat) = stdFindAll find sp w len n := by
-  sorry
+  unfold findAllA stdFindAll
+  rw [if_pos rfl]
+  simp only []
+  have hn' : 0 < (if n < 0 then len + 1 else n.toNat) := by
+    split <;> omega
+  generalize (if n < 0 then len + 1 else n.toNat) = n' at hn'
+  obtain ⟨f, hf⟩ : ∃ f, 2 * (len + 2) = f + 1 := ⟨2 * len + 3, by omega⟩
+  rw [hf]
+  cases hf0 : find 0 with
+  | none => rw [stdAll_none _ _ _ _ _ _ _ _ hf0]
+  | some m =>
+    obtain ⟨h1, h2, h3⟩ := ok.bounds hf0
+    by_cases hsp : (sp m).2 = 0
+    · rw [stdAll_accE (prev := none) wk hn' (by omega) hf0 hsp (fun h => nomatch h),
+        stdAll_none _ _ _ _ _ _ _ _ (anch _ (nextOf_gt w 0))]
+    · rw [stdAll_accN hn' (by omega) hf0 hsp,
+        stdAll_none _ _ _ _ _ _ _ _ (anch _ (by omega))]
+
+/-! ### `loopB` and `loopC` run in lockstep with `loopA` -/
+
+theorem loopB_stop (find : Nat → Option α) (sp : α → Nat × Nat) (next : Nat → Nat) (len fuel pos : Nat)
+    (last : Option Nat) (cnt : Nat) (n : Option Nat) (hp : pos > len) :
+    loopB find sp next len fuel pos last cnt n = [] := by
+  cases fuel with
+  | zero => rfl
+  | succ fuel => rw [loopB, if_pos hp]
+
+theorem loopC_stop (find : Nat → Option α) (sp : α → Nat × Nat) (next : Nat → Nat) (len fuel pos : Nat)
+    (last : Option Nat) (hp : pos > len) :
+    loopC find sp next len fuel pos last = [] := by
+  cases fuel with
+  | zero => rfl
+  | succ fuel => rw [loopC, if_pos hp]
+
+theorem loopB_eq_loopA (find : Nat → Option α) (sp : α → Nat × Nat) (next : Nat → Nat) (len : Nat)
+    (ok : FindOK find sp len) (n : Option Nat) :
+    ∀ (fuel pos : Nat) (last : Option Nat) (cnt : Nat), ¬ limitHit n cnt = true →
+      loopB find sp next len fuel pos last cnt n = loopA find sp next len fuel pos last cnt n := by
+  intro fuel
+  induction fuel with
+  | zero => intro pos last cnt _; rfl
+  | succ fuel ih =>
+    intro pos last cnt hl
+    by_cases hp : pos > len
+    · rw [loopB_stop _ _ _ _ _ _ _ _ _ hp, loopA_none _ _ _ _ _ _ _ _ (find_none_of_gt ok hp)]
+    · cases hf : find pos with
+      | none => rw [loopA_none _ _ _ _ _ _ _ _ hf, loopB, if_neg hp, hf]
+      | some m =>
+        by_cases hr : (sp m).1 = (sp m).2 ∧ some (sp m).1 = last
+        · rw [loopA_rej hl hf hr, loopB, if_neg hp, hf]
+          simp only []
+          rw [if_pos hr]
+          by_cases hlt : next pos > len
+          · rw [if_pos hlt, if_pos hlt]
+          · rw [if_neg hlt, if_neg hlt]; exact ih _ _ _ hl
+        · rw [loopA_acc hl hf hr, loopB, if_neg hp, hf]
+          simp only []
+          rw [if_neg hr]
+          by_cases hl1 : limitHit n (cnt + 1) = true
+          · rw [if_pos hl1, loopA_lim _ _ _ _ _ _ _ _ _ hl1]
+            split <;> rfl
+          · rw [if_neg hl1]
+            by_cases hlt : advance next pos (sp m).1 (sp m).2 > len
+            · rw [if_pos hlt, loopB_stop _ _ _ _ _ _ _ _ _ hlt]
+            · rw [if_neg hlt]; congr 1; exact ih _ _ _ hl1
+
+theorem loopC_eq_loopA (find : Nat → Option α) (sp : α → Nat × Nat) (next : Nat → Nat) (len : Nat)
+    (ok : FindOK find sp len) :
+    ∀ (fuel pos : Nat) (last : Option Nat) (cnt : Nat),
+      loopC find sp next len fuel pos last = loopA find sp next len fuel pos last cnt none := by
+  intro fuel
+  induction fuel with
+  | zero => intro pos last cnt; rfl
+  | succ fuel ih =>
+    intro pos last cnt
+    have hl : ¬ limitHit none cnt = true := by simp [limitHit]
+    by_cases hp : pos > len
+    · rw [loopC_stop _ _ _ _ _ _ _ hp, loopA_none _ _ _ _ _ _ _ _ (find_none_of_gt ok hp)]
+    · cases hf : find pos with
+      | none => rw [loopA_none _ _ _ _ _ _ _ _ hf, loopC, if_neg hp, hf]
+      | some m =>
+        obtain ⟨h1, h2, h3⟩ := ok.bounds hf
+        by_cases hr : (sp m).1 = (sp m).2 ∧ some (sp m).1 = last
+        · rw [loopA_rej hl hf hr, loopC, if_neg hp, hf]
+          simp only []
+          rw [if_pos hr]
+          by_cases hlt : next pos > len
+          · rw [if_pos hlt, if_pos hlt]
+          · rw [if_neg hlt, if_neg hlt]; exact ih _ _ _
+        · rw [loopA_acc hl hf hr, loopC, if_neg hp, hf]
+          simp only []
+          rw [if_neg hr]
+          have hadv : advance next pos (sp m).1 (sp m).2
+              = if (sp m).1 = (sp m).2 then next (sp m).2 else (sp m).2 := by
+            unfold advance
+            by_cases hse : (sp m).1 = (sp m).2
+            · rw [if_pos hse, if_pos hse]
+            · rw [if_neg hse, if_neg hse, if_pos (by omega)]
+          rw [hadv]
+          by_cases hlt : (if (sp m).1 = (sp m).2 then next (sp m).2 else (sp m).2) > len
+          · rw [if_pos hlt, loopC_stop _ _ _ _ _ _ _ hlt]
+          · rw [if_neg hlt]; congr 1; exact ih _ _ _
 
 theorem loopB_eq_std (find : Nat → Option α) (sp : α → Nat × Nat) (w : Nat → Nat) (len : Nat)
     (ok : FindOK find sp len) (wk : WidthOK w len) (n : Int) (hn : n ≠ 0) :
     findAllB find sp (nextOf w) len (if n ≤ 0 then none else some n.toNat) = stdFindAll find sp w len n := by
-  sorry
+  rw [← loopA_eq_std find sp w len ok wk n hn]
+  unfold findAllB findAllA
+  rw [if_neg (show ¬ (false = true) by decide)]
+  apply loopB_eq_loopA find sp (nextOf w) len ok
+  by_cases hle : n ≤ 0
+  · rw [if_pos hle]; simp [limitHit]
+  · rw [if_neg hle]; simp only [limitHit, decide_eq_true_eq]; omega
 
 theorem loopC_eq_std (find : Nat → Option α) (sp : α → Nat × Nat) (w : Nat → Nat) (len : Nat)
     (ok : FindOK find sp len) (wk : WidthOK w len) :
     findAllC find sp (nextOf w) len = stdFindAll find sp w len (-1) := by
-  sorry
+  rw [← loopA_eq_std find sp w len ok wk (-1) (by decide)]
+  unfold findAllC findAllA
+  rw [if_neg (show ¬ (false = true) by decide), if_pos (show (-1 : Int) ≤ 0 by decide)]
+  exact loopC_eq_loopA find sp (nextOf w) len ok _ _ _ _
+
+/-- A limit `n` just truncates the list delivered under any non-binding limit `N`. -/
+theorem stdAll_take (find : Nat → Option α) (sp : α → Nat × Nat) (w : Nat → Nat) (len : Nat)
+    (ok : FindOK find sp len) (wk : WidthOK w len) (n N : Nat) :
+    ∀ (fuel pos i i' : Nat) (prev : Option Nat), len + 1 - pos ≤ N - i' →
+      stdAll find sp w len fuel pos i prev n = (stdAll find sp w len fuel pos i' prev N).take (n - i) := by
+  intro fuel
+  induction fuel with
+  | zero => intro pos i i' prev _; simp only [stdAll, List.take_nil]
+  | succ fuel ih =>
+    intro pos i i' prev hN
+    by_cases hp : pos > len
+    · rw [stdAll_stop _ _ _ _ _ _ _ _ _ hp, stdAll_stop _ _ _ _ _ _ _ _ _ hp, List.take_nil]
+    · have hple : pos ≤ len := by omega
+      have hl' : i' < N := by omega
+      by_cases hl : i < n
+      · cases hf : find pos with
+        | none => rw [stdAll_none _ _ _ _ _ _ _ _ hf, stdAll_none _ _ _ _ _ _ _ _ hf, List.take_nil]
+        | some m =>
+          obtain ⟨h1, h2, h3⟩ := ok.bounds hf
+          have hsucc : n - i = (n - (i + 1)) + 1 := by omega
+          by_cases hsp : (sp m).2 = pos
+          · have hgt := nextOf_gt w pos
+            by_cases hprev : some (sp m).1 = prev
+            · rw [stdAll_rej wk hl hple hf hsp hprev, stdAll_rej wk hl' hple hf hsp hprev]
+              exact ih _ _ _ _ (by omega)
+            · rw [stdAll_accE wk hl hple hf hsp hprev, stdAll_accE wk hl' hple hf hsp hprev, hsucc,
+                List.take_succ_cons]
+              congr 1
+              exact ih _ _ _ _ (by omega)
+          · rw [stdAll_accN hl hple hf hsp, stdAll_accN hl' hple hf hsp, hsucc, List.take_succ_cons]
+            congr 1
+            exact ih _ _ _ _ (by omega)
+      · rw [stdAll_lim _ _ _ _ _ _ _ _ _ hl, show n - i = 0 by omega, List.take_zero]
 
 theorem std_limit_prefix (find : Nat → Option α) (sp : α → Nat × Nat) (w : Nat → Nat) (len : Nat)
     (ok : FindOK find sp len) (wk : WidthOK w len) (n : Nat) :
     stdFindAll find sp w len (n : Int) = (stdFindAll find sp w len (-1)).take n := by
-  sorry
+  unfold stdFindAll
+  simp only []
+  rw [if_neg (by omega), if_pos (by omega), Int.toNat_natCast]
+  exact stdAll_take find sp w len ok wk n (len + 1) _ 0 0 0 none (by omega)
+
+/-- Everything delivered from `pos` starts at or after `pos` (strictly after, when the match found at `pos`
+is the empty match at `pos` that `prev` suppresses) and is a well-formed span. -/
+theorem stdAll_mem (find : Nat → Option α) (sp : α → Nat × Nat) (w : Nat → Nat) (len : Nat)
+    (ok : FindOK find sp len) (wk : WidthOK w len) (n : Nat) :
+    ∀ (fuel pos i : Nat) (prev : Option Nat) (b : α), b ∈ stdAll find sp w len fuel pos i prev n →
+      pos ≤ (sp b).1 ∧ (sp b).1 ≤ (sp b).2 ∧ (sp b).2 ≤ len ∧
+      (∀ m, find pos = some m → (sp m).2 = pos → prev = some pos → pos < (sp b).1) := by
+  intro fuel
+  induction fuel with
+  | zero => intro pos i prev b hb; simp only [stdAll] at hb; exact nomatch hb
+  | succ fuel ih =>
+    intro pos i prev b hb
+    by_cases hp : pos > len
+    · rw [stdAll_stop _ _ _ _ _ _ _ _ _ hp] at hb; exact nomatch hb
+    · have hple : pos ≤ len := by omega
+      by_cases hl : i < n
+      · cases hf : find pos with
+        | none => rw [stdAll_none _ _ _ _ _ _ _ _ hf] at hb; exact nomatch hb
+        | some m =>
+          obtain ⟨h1, h2, h3⟩ := ok.bounds hf
+          by_cases hsp : (sp m).2 = pos
+          · have hgt := nextOf_gt w pos
+            by_cases hprev : some (sp m).1 = prev
+            · rw [stdAll_rej wk hl hple hf hsp hprev] at hb
+              obtain ⟨a1, a2, a3, _⟩ := ih _ _ _ _ hb
+              exact ⟨by omega, a2, a3, fun _ _ _ _ => by omega⟩
+            · rw [stdAll_accE wk hl hple hf hsp hprev] at hb
+              rcases List.mem_cons.mp hb with hbm | hb
+              · rw [hbm]
+                refine ⟨h1, h2, h3, ?_⟩
+                intro m' hm' _ hpv
+                exfalso; apply hprev
+                rw [hpv]; congr 1; omega
+              · obtain ⟨a1, a2, a3, _⟩ := ih _ _ _ _ hb
+                exact ⟨by omega, a2, a3, fun _ _ _ _ => by omega⟩
+          · rw [stdAll_accN hl hple hf hsp] at hb
+            rcases List.mem_cons.mp hb with hbm | hb
+            · rw [hbm]
+              refine ⟨h1, h2, h3, ?_⟩
+              intro m' hm' he' _
+              exfalso
+              have : m' = m := Option.some.inj hm'.symm
+              rw [this] at he'
+              exact hsp he'
+            · obtain ⟨a1, a2, a3, _⟩ := ih _ _ _ _ hb
+              exact ⟨by omega, a2, a3, fun _ _ _ _ => by omega⟩
+      · rw [stdAll_lim _ _ _ _ _ _ _ _ _ hl] at hb; exact nomatch hb
+
+theorem stdAll_pairwise (find : Nat → Option α) (sp : α → Nat × Nat) (w : Nat → Nat) (len : Nat)
+    (ok : FindOK find sp len) (wk : WidthOK w len) (n : Nat) :
+    ∀ (fuel pos i : Nat) (prev : Option Nat),
+      (stdAll find sp w len fuel pos i prev n).Pairwise
+        (fun a b => (sp a).2 ≤ (sp b).1 ∧ (sp a).1 < (sp b).1) := by
+  intro fuel
+  induction fuel with
+  | zero => intro pos i prev; simp only [stdAll]; exact List.Pairwise.nil
+  | succ fuel ih =>
+    intro pos i prev
+    by_cases hp : pos > len
+    · rw [stdAll_stop _ _ _ _ _ _ _ _ _ hp]; exact List.Pairwise.nil
+    · have hple : pos ≤ len := by omega
+      by_cases hl : i < n
+      · cases hf : find pos with
+        | none => rw [stdAll_none _ _ _ _ _ _ _ _ hf]; exact List.Pairwise.nil
+        | some m =>
+          obtain ⟨h1, h2, h3⟩ := ok.bounds hf
+          by_cases hsp : (sp m).2 = pos
+          · have hgt := nextOf_gt w pos
+            by_cases hprev : some (sp m).1 = prev
+            · rw [stdAll_rej wk hl hple hf hsp hprev]; exact ih _ _ _
+            · rw [stdAll_accE wk hl hple hf hsp hprev]
+              refine List.Pairwise.cons ?_ (ih _ _ _)
+              intro b hb
+              obtain ⟨a1, _, _, _⟩ := stdAll_mem find sp w len ok wk n _ _ _ _ b hb
+              omega
+          · rw [stdAll_accN hl hple hf hsp]
+            refine List.Pairwise.cons ?_ (ih _ _ _)
+            intro b hb
+            obtain ⟨a1, _, _, a4⟩ := stdAll_mem find sp w len ok wk n _ _ _ _ b hb
+            by_cases hse : (sp m).1 = (sp m).2
+            · have hf2 : find (sp m).2 = some m := ok.stable hf (by omega) (by omega)
+              have := a4 m hf2 rfl rfl
+              omega
+            · omega
+      · rw [stdAll_lim _ _ _ _ _ _ _ _ _ hl]; exact List.Pairwise.nil
 
 theorem std_wellformed (find : Nat → Option α) (sp : α → Nat × Nat) (w : Nat → Nat) (len : Nat)
     (ok : FindOK find sp len) (wk : WidthOK w len) (n : Int) :
     (stdFindAll find sp w len n).Pairwise (fun a b => (sp a).2 ≤ (sp b).1 ∧ (sp a).1 < (sp b).1)
     ∧ ∀ m ∈ stdFindAll find sp w len n, (sp m).1 ≤ (sp m).2 ∧ (sp m).2 ≤ len := by
-  sorry
+  unfold stdFindAll
+  refine ⟨stdAll_pairwise find sp w len ok wk _ _ _ _ _, ?_⟩
+  intro m hm
+  obtain ⟨_, a2, a3, _⟩ := stdAll_mem find sp w len ok wk _ _ _ _ _ m hm
+  exact ⟨a2, a3⟩
 
-/-- C08: the five Replace* loops produce what `regexp.replaceAll` produces. -/
-theorem replace_eq_std (find : Nat → Option α) (sp : α → Nat × Nat) (w : Nat → Nat) (src : List Nat)
-    (repl : α → List Nat) (ok : FindOK find sp src.length) (wk : WidthOK w src.length) :
+/-! ### Replace
+
+`replace_eq_std` as originally stated (under `FindOK` and `WidthOK` only) is FALSE: stdlib's `replaceAll`
+advances by `max (searchPos + width) a1`, the model by `a1`, so they diverge as soon as a match ends strictly
+inside the rune that starts at the search position (see `replace_eq_std_counterexample`).  With real UTF-8
+widths and a rune-stepping matcher this never happens; `RuneAligned` states exactly that, and
+`replace_eq_std_partial` is the theorem under this extra hypothesis. -/
+
+/-- No match ends strictly inside the rune that starts at the position the search started from. -/
+structure RuneAligned (find : Nat → Option α) (sp : α → Nat × Nat) (w : Nat → Nat) : Prop where
+  ends : ∀ {pos m}, find pos = some m → pos < (sp m).2 → pos + w pos ≤ (sp m).2
+
+theorem stdReplace_stop (find : Nat → Option α) (sp : α → Nat × Nat) (w : Nat → Nat) (src : List Nat)
+    (repl : α → List Nat) (fuel pos L : Nat) (buf : List Nat) (hp : pos > src.length) :
+    stdReplace find sp w src repl fuel pos L buf = buf ++ src.drop L := by
+  cases fuel with
+  | zero => rfl
+  | succ fuel => rw [stdReplace, if_pos hp]
+
+theorem stdReplace_none {find : Nat → Option α} (sp : α → Nat × Nat) (w : Nat → Nat) (src : List Nat)
+    (repl : α → List Nat) (fuel pos L : Nat) (buf : List Nat) (hf : find pos = none) :
+    stdReplace find sp w src repl fuel pos L buf = buf ++ src.drop L := by
+  cases fuel with
+  | zero => rfl
+  | succ fuel =>
+    rw [stdReplace]
+    split
+    · rfl
+    · rw [hf]
+
+theorem stdReplace_step {find : Nat → Option α} {sp : α → Nat × Nat} {w : Nat → Nat} {src : List Nat}
+    {repl : α → List Nat} {fuel pos L : Nat} {buf : List Nat} {m : α}
+    (hp : pos ≤ src.length) (hf : find pos = some m) :
+    stdReplace find sp w src repl (fuel+1) pos L buf
+      = stdReplace find sp w src repl fuel
+          (if pos + w pos > (sp m).2 then pos + w pos else if pos + 1 > (sp m).2 then pos + 1 else (sp m).2)
+          (sp m).2
+          (if (sp m).2 > L ∨ (sp m).1 = 0 then buf ++ (src.drop L).take ((sp m).1 - L) ++ repl m
+           else buf ++ (src.drop L).take ((sp m).1 - L)) := by
+  rw [stdReplace, if_neg (by omega), hf]
+
+/-- stdlib's advance rule, for a match that does not end inside the rune at `pos`. -/
+theorem stdAdv_eq {w : Nat → Nat} {pos e : Nat} (hpe : pos ≤ e) (hal : pos < e → pos + w pos ≤ e) :
+    (if pos + w pos > e then pos + w pos else if pos + 1 > e then pos + 1 else e)
+      = if e = pos then nextOf w pos else e := by
+  unfold nextOf
+  by_cases h : e = pos
+  · rw [if_pos h]
+    by_cases hw : w pos = 0
+    · rw [if_pos hw, if_neg (by omega), if_pos (by omega)]
+    · rw [if_neg hw, if_pos (by omega)]
+  · have := hal (by omega)
+    rw [if_neg h, if_neg (by omega), if_neg (by omega)]
+
+theorem replaceLoop_none {find : Nat → Option α} (sp : α → Nat × Nat) (next : Nat → Nat) (src : List Nat)
+    (repl : α → List Nat) (fuel pos L : Nat) (last : Option Nat) (buf : List Nat) (hf : find pos = none) :
+    replaceLoop find sp next src repl fuel pos L last buf = buf ++ src.drop L := by
+  cases fuel with
+  | zero => rfl
+  | succ fuel => rw [replaceLoop, hf]
+
+theorem replaceLoop_rej {find : Nat → Option α} {sp : α → Nat × Nat} {next : Nat → Nat} {src : List Nat}
+    {repl : α → List Nat} {fuel pos L : Nat} {last : Option Nat} {buf : List Nat} {m : α}
+    (hf : find pos = some m) (hr : (sp m).1 = (sp m).2 ∧ some (sp m).1 = last) :
+    replaceLoop find sp next src repl (fuel+1) pos L last buf
+      = if next pos > src.length then buf ++ src.drop L
+        else replaceLoop find sp next src repl fuel (next pos) L last buf := by
+  rw [replaceLoop, hf]
+  simp only []
+  rw [if_pos hr]
+
+theorem replaceLoop_acc {find : Nat → Option α} {sp : α → Nat × Nat} {next : Nat → Nat} {src : List Nat}
+    {repl : α → List Nat} {fuel pos L : Nat} {last : Option Nat} {buf : List Nat} {m : α}
+    (hf : find pos = some m) (hr : ¬ ((sp m).1 = (sp m).2 ∧ some (sp m).1 = last)) :
+    replaceLoop find sp next src repl (fuel+1) pos L last buf
+      = if advance next pos (sp m).1 (sp m).2 > src.length
+        then buf ++ (src.drop L).take ((sp m).1 - L) ++ repl m ++ src.drop (sp m).2
+        else replaceLoop find sp next src repl fuel (advance next pos (sp m).1 (sp m).2) (sp m).2
+               (if (sp m).1 ≠ (sp m).2 then some (sp m).2 else last)
+               (buf ++ (src.drop L).take ((sp m).1 - L) ++ repl m) := by
+  rw [replaceLoop, hf]
+  simp only []
+  rw [if_neg hr]
+
+/-- Invariant linking stdlib's `(searchPos, lastMatchEnd)` with the model's `(pos, lastEnd, lastMatchEnd)`:
+the positions and copy marks coincide (`L`), and the model's "end of the last non-empty match" register equals
+the current position exactly when stdlib's `lastMatchEnd` does (and we are not at 0). -/
+structure RInv (pos L : Nat) (last : Option Nat) : Prop where
+  le : L ≤ pos
+  iff_here : last = some pos ↔ (L = pos ∧ pos ≠ 0)
+  last_le : ∀ x, last = some x → x ≤ pos
+
+theorem RInv.init : RInv 0 0 none :=
+  { le := Nat.le_refl 0
+    iff_here := Iff.intro (fun h => nomatch h) (fun h => absurd rfl h.2)
+    last_le := fun _ h => nomatch h }
+
+theorem RInv.step {pos L p' L' : Nat} {last : Option Nat} (inv : RInv pos L last) (hL : L' < p') (hp : pos < p') :
+    RInv p' L' last :=
+  { le := by omega
+    iff_here := Iff.intro (fun h => by have := inv.last_le _ h; omega) (fun h => by omega)
+    last_le := fun x hx => by have := inv.last_le x hx; omega }
+
+theorem RInv.same {e : Nat} (he : e ≠ 0) : RInv e e (some e) :=
+  { le := Nat.le_refl e
+    iff_here := Iff.intro (fun _ => ⟨rfl, he⟩) (fun _ => rfl)
+    last_le := fun x hx => by cases hx; omega }
+
+theorem replace_sim (find : Nat → Option α) (sp : α → Nat × Nat) (w : Nat → Nat) (src : List Nat)
+    (repl : α → List Nat) (ok : FindOK find sp src.length) (al : RuneAligned find sp w) :
+    ∀ (k pos L : Nat) (last : Option Nat) (buf : List Nat) (fs fc : Nat),
+      src.length + 2 - pos ≤ k → RInv pos L last →
+      src.length + 2 - pos ≤ fs → src.length + 2 - pos ≤ fc →
+      stdReplace find sp w src repl fs pos L buf = replaceLoop find sp (nextOf w) src repl fc pos L last buf := by
+  intro k
+  induction k with
+  | zero =>
+    intro pos L last buf fs fc hk _ _ _
+    have hp : pos > src.length := by omega
+    rw [stdReplace_stop _ _ _ _ _ _ _ _ _ hp, replaceLoop_none _ _ _ _ _ _ _ _ _ (find_none_of_gt ok hp)]
+  | succ k ih =>
+    intro pos L last buf fs fc hk inv hfs hfc
+    by_cases hp : pos > src.length
+    · rw [stdReplace_stop _ _ _ _ _ _ _ _ _ hp, replaceLoop_none _ _ _ _ _ _ _ _ _ (find_none_of_gt ok hp)]
+    · have hple : pos ≤ src.length := by omega
+      have hLp := inv.le
+      cases hf : find pos with
+      | none => rw [stdReplace_none _ _ _ _ _ _ _ _ hf, replaceLoop_none _ _ _ _ _ _ _ _ _ hf]
+      | some m =>
+        obtain ⟨h1, h2, h3⟩ := ok.bounds hf
+        obtain ⟨fs, rfl⟩ : ∃ fs', fs = fs' + 1 := ⟨fs - 1, by omega⟩
+        obtain ⟨fc, rfl⟩ : ∃ fc', fc = fc' + 1 := ⟨fc - 1, by omega⟩
+        rw [stdReplace_step hple hf, stdAdv_eq (by omega) (al.ends hf)]
+        by_cases hse : (sp m).1 = (sp m).2
+        · by_cases hsp : (sp m).2 = pos
+          · -- empty match at pos
+            have hgt := nextOf_gt w pos
+            rw [if_pos hsp]
+            by_cases hlast : some (sp m).1 = last
+            · have hL : L = pos ∧ pos ≠ 0 := by
+                apply inv.iff_here.mp
+                rw [← hlast]; congr 1; omega
+              rw [replaceLoop_rej hf ⟨hse, hlast⟩, if_neg (by omega), show (sp m).1 - L = 0 by omega,
+                List.take_zero, List.append_nil, show (sp m).2 = L by omega]
+              by_cases hlt : nextOf w pos > src.length
+              · rw [if_pos hlt, stdReplace_stop _ _ _ _ _ _ _ _ _ hlt]
+              · rw [if_neg hlt]
+                exact ih _ _ _ _ _ _ (by omega) (inv.step (by omega) hgt) (by omega) (by omega)
+            · have hnr : ¬ ((sp m).1 = (sp m).2 ∧ some (sp m).1 = last) := fun h => hlast h.2
+              have hcond : L ≠ pos ∨ pos = 0 := by
+                by_cases hc : L = pos ∧ pos ≠ 0
+                · exfalso; apply hlast
+                  rw [inv.iff_here.mpr hc]; congr 1; omega
+                · omega
+              have hadv : advance (nextOf w) pos (sp m).1 (sp m).2 = nextOf w pos := by
+                unfold advance; rw [if_pos hse, hsp]
+              rw [replaceLoop_acc hf hnr, hadv, if_pos (by omega),
+                if_neg (fun h : (sp m).1 ≠ (sp m).2 => h hse)]
+              by_cases hlt : nextOf w pos > src.length
+              · rw [if_pos hlt, stdReplace_stop _ _ _ _ _ _ _ _ _ hlt]
+              · rw [if_neg hlt]
+                exact ih _ _ _ _ _ _ (by omega) (inv.step (by omega) hgt) (by omega) (by omega)
+          · -- empty match strictly ahead of pos: stdlib visits it twice
+            have hgt := nextOf_gt w (sp m).2
+            have hnr : ¬ ((sp m).1 = (sp m).2 ∧ some (sp m).1 = last) := by
+              intro h; have := inv.last_le _ h.2.symm; omega
+            have hadv : advance (nextOf w) pos (sp m).1 (sp m).2 = nextOf w (sp m).2 := by
+              unfold advance; rw [if_pos hse]
+            rw [if_neg hsp, if_pos (Or.inl (by omega)), replaceLoop_acc hf hnr, hadv,
+              if_neg (fun h : (sp m).1 ≠ (sp m).2 => h hse)]
+            obtain ⟨fs, rfl⟩ : ∃ fs', fs = fs' + 1 := ⟨fs - 1, by omega⟩
+            have hf2 : find (sp m).2 = some m := ok.stable hf (by omega) (by omega)
+            rw [stdReplace_step h3 hf2, stdAdv_eq (Nat.le_refl _) (al.ends hf2), if_pos rfl,
+              if_neg (by omega), show (sp m).1 - (sp m).2 = 0 by omega, List.take_zero, List.append_nil]
+            by_cases hlt : nextOf w (sp m).2 > src.length
+            · rw [if_pos hlt, stdReplace_stop _ _ _ _ _ _ _ _ _ hlt]
+            · rw [if_neg hlt]
+              exact ih _ _ _ _ _ _ (by omega) (inv.step hgt (by omega)) (by omega) (by omega)
+        · -- non-empty match
+          have hnr : ¬ ((sp m).1 = (sp m).2 ∧ some (sp m).1 = last) := fun h => hse h.1
+          have hadv : advance (nextOf w) pos (sp m).1 (sp m).2 = (sp m).2 := by
+            unfold advance; rw [if_neg hse, if_pos (by omega)]
+          rw [if_neg (by omega), if_pos (Or.inl (by omega)), replaceLoop_acc hf hnr, hadv,
+            if_neg (by omega), if_pos hse]
+          exact ih _ _ _ _ _ _ (by omega) (RInv.same (by omega)) (by omega) (by omega)
+
+/-- C08 (under the extra hypothesis `RuneAligned`): the five Replace* loops produce what `regexp.replaceAll`
+produces.  Same statement as the original `replace_eq_std` plus `al`; `WidthOK` is kept for signature
+compatibility but is not used (both sides step by `nextOf w` once matches are rune-aligned). -/
+theorem replace_eq_std_partial (find : Nat → Option α) (sp : α → Nat × Nat) (w : Nat → Nat) (src : List Nat)
+    (repl : α → List Nat) (ok : FindOK find sp src.length) (_wk : WidthOK w src.length)
+    (al : RuneAligned find sp w) :
     replaceAll find sp (nextOf w) src repl = stdReplaceAll find sp w src repl := by
-  sorry
+  unfold replaceAll stdReplaceAll
+  exact (replace_sim find sp w src repl ok al (src.length + 2) 0 0 none [] _ _
+    (by omega) RInv.init (by omega) (by omega)).symm
+
+/-! #### The original `replace_eq_std` is false
+
+Input of length 2 whose first rune is 2 bytes wide (`w 0 = 2`, `w 1 = 1`); `find 0 = (0,1)` (a match ending
+inside that rune), `find 1 = none`, `find 2 = (2,2)`.  The model continues at 1, finds nothing and stops:
+`[7, 11]`.  stdlib continues at `0 + 2 = 2`, finds the empty match at 2 and inserts once more: `[7, 11, 7]`. -/
+
+def cexFind (p : Nat) : Option (Nat × Nat) :=
+  if p = 0 then some (0, 1) else if p = 2 then some (2, 2) else none
+
+def cexW (p : Nat) : Nat := if p = 0 then 2 else if p = 1 then 1 else 0
+
+theorem cexFind_ok : FindOK cexFind id 2 := by
+  constructor
+  · intro pos m h
+    unfold cexFind at h
+    split at h
+    · cases h; simp only [id]; omega
+    · split at h
+      · cases h; simp only [id]; omega
+      · exact nomatch h
+  · intro pos m p h hp hps
+    unfold cexFind at h
+    split at h
+    · cases h
+      simp only [id] at hps
+      have : p = 0 := by omega
+      rw [this]; rfl
+    · split at h
+      · cases h
+        simp only [id] at hps
+        have : p = 2 := by omega
+        rw [this]; rfl
+      · exact nomatch h
+
+theorem cexW_ok : WidthOK cexW 2 := by
+  constructor
+  · intro p hp
+    unfold cexW
+    split
+    · omega
+    · split <;> omega
+  · intro p hp
+    unfold cexW
+    rw [if_neg (by omega), if_neg (by omega)]
+
+/-- The statement of `replace_eq_std` without `RuneAligned` fails on a concrete instance. -/
+theorem replace_eq_std_counterexample :
+    FindOK cexFind id [10, 11].length ∧ WidthOK cexW [10, 11].length ∧
+    replaceAll cexFind id (nextOf cexW) [10, 11] (fun _ => [7]) = [7, 11] ∧
+    stdReplaceAll cexFind id cexW [10, 11] (fun _ => [7]) = [7, 11, 7] :=
+  ⟨cexFind_ok, cexW_ok, by decide, by decide⟩
+
+theorem replace_eq_std_false :
+    ¬ ∀ (find : Nat → Option (Nat × Nat)) (sp : Nat × Nat → Nat × Nat) (w : Nat → Nat) (src : List Nat)
+        (repl : Nat × Nat → List Nat), FindOK find sp src.length → WidthOK w src.length →
+        replaceAll find sp (nextOf w) src repl = stdReplaceAll find sp w src repl := by
+  intro h
+  have := h cexFind id cexW [10, 11] (fun _ => [7]) cexFind_ok cexW_ok
+  obtain ⟨_, _, h1, h2⟩ := replace_eq_std_counterexample
+  rw [h1, h2] at this
+  exact absurd this (by decide)
 
 end Cx
